@@ -46,6 +46,20 @@ Lemma combine_map_r : forall {A B C} (f : B -> C) (l1 : list A) (l2 : list B),
   combine l1 (map f l2) = map (fun kv => (fst kv, f (snd kv))) (combine l1 l2).
 Proof. induction l1; destruct l2; simpl; auto. rewrite IHl1; auto. Qed.
 
+Lemma NoDup_map_inj : forall {A B} (g : A -> B) l,
+  (forall x y, In x l -> In y l -> g x = g y -> x = y) -> NoDup l -> NoDup (map g l).
+Proof.
+  induction l as [|z l IHl]; simpl; intros; constructor; inversion H0; subst.
+  - intro Hin. apply in_map_iff in Hin. destruct Hin as [y [Hy Hin]].
+    assert (y = z) by (apply H; auto). subst; auto.
+  - apply IHl; auto.
+Qed.
+
+
+Lemma map_flat_map : forall {A B C} (g : B -> C) (f : A -> list B) l,
+  map g (flat_map f l) = flat_map (fun x => map g (f x)) l.
+Proof. induction l; simpl; auto. rewrite map_app, IHl; auto. Qed.
+
 Definition nname (nn : list (node * name)) (v : node) : name :=
   match aget node_eqb nn v with Some x => x | None => NStart 0 end.
 
